@@ -8,7 +8,13 @@ use std::sync::atomic::{AtomicBool, AtomicU64, Ordering};
 use std::sync::Mutex;
 use std::time::{Duration, Instant};
 
-pub const VERIF_DIR: &str = "/verif";
+pub const VERIF_DIR_DEFAULT: &str = "/verif";
+
+/// root of the verification tree (evidence/, replays/, known_findings.txt); the driver exports
+/// VERIF_ROOT so that a snapshot of /verif run elsewhere writes into its own tree
+pub fn verif_dir() -> String {
+    std::env::var("VERIF_ROOT").unwrap_or_else(|_| VERIF_DIR_DEFAULT.to_string())
+}
 
 #[derive(Clone, Copy, Debug, PartialEq, Eq)]
 pub enum Tier {
@@ -275,7 +281,7 @@ impl KnownFindings {
 
 pub fn load_known_findings() -> KnownFindings {
     let mut kf = KnownFindings::default();
-    let path = format!("{VERIF_DIR}/known_findings.txt");
+    let path = format!("{}/known_findings.txt", verif_dir());
     if let Ok(s) = std::fs::read_to_string(path) {
         for line in s.lines() {
             let line = line.trim();
@@ -317,7 +323,7 @@ pub fn finish(ctx: &Ctx, mut rep: Report, rule: &str, assumptions: &[&str], extr
     rep.violations.sort_by(|a, b| (a.key.len(), &a.key).cmp(&(b.key.len(), &b.key)));
     let mut new_violations = 0u64;
     let mut known_hit: BTreeSet<String> = BTreeSet::new();
-    let dir = format!("{VERIF_DIR}/replays/{id}");
+    let dir = format!("{}/replays/{id}", verif_dir());
     // replay files of earlier runs are stale
     let _ = std::fs::remove_dir_all(&dir);
     let _ = std::fs::create_dir_all(&dir);
@@ -377,7 +383,7 @@ pub fn finish(ctx: &Ctx, mut rep: Report, rule: &str, assumptions: &[&str], extr
         "wall_s": wall,
         "violations": new_violations,
     });
-    let evdir = format!("{VERIF_DIR}/evidence");
+    let evdir = format!("{}/evidence", verif_dir());
     let _ = std::fs::create_dir_all(&evdir);
     let evpath = format!("{evdir}/{id}.json");
     if let Err(e) = std::fs::write(&evpath, serde_json::to_string_pretty(&ev).unwrap()) {
